@@ -72,6 +72,24 @@ def run(ctx):
             if rng.random() < 0.5:
                 t['FuelModel'] = dict(FUEL_MODEL)
         shaped_power(rng, case, shape)
+        if ci % 4 == 2:
+            # a cold assembly with a long six-node region above a short bundle, heated through the gap by hot neighbours on some of
+            # its sides only: its coolant peak occurs in the six-node region, and not in the node that happens to be listed first
+            pos = [(1, 1)] + rng.sample([(2, 2), (2, 3), (2, 4), (2, 5), (2, 6)], rng.choice([1, 2]))
+            case = gi.random_case(rng, positions=pos, n_types=2, gap_model=rng.choice(['flow', 'no_flow']),
+                                  length=round(rng.uniform(0.15, 0.3), 3), with_power=False, flow_range=(0.5, 2.0))
+            names_ = list(case['types'])
+            for a_ in case['assignment']:
+                a_['type'] = names_[0] if (a_['ring'], a_['pos']) == (1, 1) else names_[1]
+            L_ = case['core']['length']
+            case['types'][names_[0]]['AxialRegion'] = [dict(name='upper', z_lo=round(0.3 * L_, 4), z_hi=L_, vf_coolant=0.4, model='6node',
+                                                            convection_factor=1.0)]
+            case['types'][names_[1]].pop('AxialRegion', None)
+            shaped_power(rng, case, 'flat')
+            for row in case['power']['rows']:
+                if int(row[0]) == 1:
+                    row[5] *= 1e-3
+            ctx.count("six_node_peak_cases")
         d = str(ctx.work / ("p%d" % ci))
         if ci % 2 == 1:
             gi.random_setup_options(rng, case)
